@@ -59,6 +59,15 @@ pub fn check_with(c: &Case, ctx: &mut Ctx, via_default: bool) -> Result<(), Fail
     let (mut checked, mut ill) = (0u64, 0u64);
     let mut bitexact = 0u64;
     for i in 0..len {
+        if crate::tele::due_reset() {
+            // reset() of the composite and of every hand-wired part at the same step
+            comp.reset();
+            for part in [&mut sma, &mut sd, &mut mad, &mut fast, &mut ema1, &mut ema2, &mut ema3, &mut tr, &mut atr, &mut mx, &mut mn] {
+                part.reset();
+            }
+            cci_recent.clear();
+            ctx.label("reset_of_composite_and_parts");
+        }
         crate::tele::step(&mut comp, &c.cfg);
         let (out, bar) = if c.scalar {
             let x = c.xs[i].0;
@@ -219,7 +228,7 @@ pub fn run(g: &mut Global) {
     g.random("random", g.tier.pick(60000, 4000000), &|| strategy(1, 2000), &check);
     // identity events (tele.rs): at one or two steps the instance is replaced by its clone, by a used instance
     // (same or longer periods) that clone_from()s it, or by its serde round trip; nothing may change
-    g.random("events", g.tier.pick(20000, 400000), &|| crate::tele::wrap(strategy(1, 600)), &|t: &crate::tele::TCase<Case>, ctx: &mut Ctx| crate::tele::check_wrapped(t, ctx, if t.case.scalar { t.case.xs.len() } else { t.case.bars.len() }, t.case.cfg.n(), check));
+    g.random("events", g.tier.pick(20000, 400000), &|| crate::tele::wrap_resets(strategy(1, 600)), &|t: &crate::tele::TCase<Case>, ctx: &mut Ctx| crate::tele::check_wrapped(t, ctx, if t.case.scalar { t.case.xs.len() } else { t.case.bars.len() }, t.case.cfg.n(), check));
     if g.tier == Tier::Thorough {
         g.random("long", 800, &|| strategy(4000, 10000), &check);
     }
